@@ -32,6 +32,10 @@ type Ctx struct {
 	known       *KnownFile
 	Solver      smt.Stats
 	samples     []any
+	// KernelSolver overrides the solver used by NewKernel ("z3", "z3-new",
+	// "cvc5", "portfolio"); KernelIncremental keeps push/pop on one process.
+	KernelSolver      string
+	KernelIncremental bool
 }
 
 type KnownFinding struct {
